@@ -989,6 +989,13 @@ fn runtime(env: usize) -> Runtime<NoCtx> {
             /// a host constant
             const HOST_LIMIT: u32 = 42;
         },
+        // only used by the cross-package representatives: the names of environment 0, the Rust types exchanged
+        4 => library! {
+            /// in this runtime `Foo` is the other Rust type
+            #[clone] type Foo = Val<Bar>;
+            /// … and `Bar` the first
+            #[clone] type Bar = Val<Foo>;
+        },
         _ => library! {
             /// a module
             mod foo {
@@ -2403,6 +2410,83 @@ fn uf_after(rep: &mut Report, seed: u64, index: u64, src: &str, before: &(Vec<St
     }
 }
 
+/// **Cross-package class representatives** (run first, whatever the seed). Whatever the process remembers
+/// about a request — the `TypeRegistry` is process-global — a type-checker `Type` in a signature means something
+/// only relative to the package it belongs to: `Type::Var(n)` indexes that package's union-find table, a name is
+/// resolved in that package's scope graph against the runtime it was compiled with. So: two packages compiled
+/// from scripts of the *same shape* (the type-variable numbering coincides) whose filtermaps have different
+/// inferred payload types, and two runtimes that register different Rust types under the same name. In a fresh
+/// process the first package is asked for its function under its true type (granted), then the second package
+/// is asked for its function under the *first* package's type: must be refused; under its own: granted. Each
+/// representative runs in its own child process, so the replay (the same description) starts cold by construction.
+fn cross_package_reps(fam: &[Entry], rep: &mut Report, seed: u64) {
+    let pay: [(&str, &str); 8] = [
+        ("Some(70000)", "Option<i32>"), ("[70000]", "List<i32>"), ("Some(0.5)", "Option<f64>"), ("[0.5]", "List<f64>"),
+        ("[[0.5]]", "List<List<f64>>"), ("Some(Some(70000))", "Option<Option<i32>>"), ("Some([70000])", "Option<List<i32>>"), ("[Some(0.5)]", "List<Option<f64>>"),
+    ];
+    type Mk = fn(&str) -> String;
+    let shapes: [(&str, Mk, Mk); 3] = [
+        ("accept-side", |e| format!("filtermap f() {{ accept {e} }}"), |t| format!("fn() -> Verdict<{t}, ()>")),
+        ("reject-side", |e| format!("filtermap f() {{ reject {e} }}"), |t| format!("fn() -> Verdict<(), {t}>")),
+        ("reject-side-beside-a-parameter", |e| format!("filtermap f(p0: u8) {{ if true {{ accept p0 }} else {{ reject {e} }} }}"), |t| format!("fn(u8) -> Verdict<u8, {t}>")),
+    ];
+    // (class, env A, script A, type A, env B, script B, type asked of B, expected ok)
+    let mut reps: Vec<(String, usize, String, String, usize, String, String, bool)> = vec![];
+    for (si, (shape, mk_src, mk_ty)) in shapes.iter().enumerate() {
+        for i in 0..pay.len() {
+            let (a, b) = (pay[i], pay[(i + 1 + si) % pay.len()]);
+            reps.push((format!("same-shape-script-other-payload:{shape}"), 0, mk_src(a.0), mk_ty(a.1), 0, mk_src(b.0), mk_ty(a.1), false));
+            if si == 0 {
+                reps.push((format!("same-shape-script-own-payload:{shape}"), 0, mk_src(a.0), mk_ty(a.1), 0, mk_src(b.0), mk_ty(b.1), true));
+            }
+        }
+    }
+    for (src, ty_foo, ty_bar) in [
+        ("fn f(x: Foo) {}", "fn(Val<Foo>) -> ()", "fn(Val<Bar>) -> ()"),
+        ("fn f() -> Foo? { None }", "fn() -> Option<Val<Foo>>", "fn() -> Option<Val<Bar>>"),
+    ] {
+        reps.push(("same-name-other-runtime".into(), 0, src.into(), ty_foo.into(), 4, src.into(), ty_foo.into(), false));
+        reps.push(("same-name-other-runtime:own-type".into(), 0, src.into(), ty_foo.into(), 4, src.into(), ty_bar.into(), true));
+        reps.push(("same-name-other-runtime".into(), 4, src.into(), ty_bar.into(), 0, src.into(), ty_bar.into(), false));
+    }
+    for (k, (class, env_a, src_a, ty_a, env_b, src_b, ty_b, expected_ok)) in reps.into_iter().enumerate() {
+        if fam.iter().all(|e| e.show() != ty_a) || fam.iter().all(|e| e.show() != ty_b) {
+            rep.mismatch("a cross-package representative asks for a Rust type outside the family", json!({"type_a": ty_a, "type_b": ty_b}));
+            continue;
+        }
+        let expected = if expected_ok { "ok".to_string() } else { format!("refused (cross-package:{class}: the requested type is the true signature of the function of the same name in another package of this process)") };
+        let mut v = json!({
+            "seed": seed, "index": format!("cross-package representative {k}"), "env": env_b, "script": src_b, "function": src_b,
+            "name": "f", "rust_type": ty_b, "label": format!("cross-package:{class}"), "expected": expected,
+            "history": [], "history_kind": "none",
+            "process_history": [{"index": format!("cross-package representative {k}, first package"), "env": env_a, "script": src_a, "requests": [{"name": "f", "rust_type": ty_a}]}],
+            "process_history_kind": "one-earlier-request-in-the-process",
+        });
+        let real = answer_in_fresh_process(&v);
+        rep.evaluations += 1;
+        let outcome = match real.as_deref() { Some("ok") => "granted", Some("panic") => "panic", Some(_) => "refused", None => "no answer" };
+        rep.hist("cross-package", format!("{}: {outcome}", class.split(':').next().unwrap_or("")));
+        rep.class(format!("cross-package|{class}|{outcome}"));
+        v["real"] = json!(real);
+        match real.as_deref() {
+            None => rep.mismatch("a cross-package representative got no answer from its child process (a script that does not compile, a crash)", v),
+            Some(r) if (r == "ok") != expected_ok || r == "panic" => {
+                let kind = if r == "panic" { "panics" } else if expected_ok { "refuses-true-signature" } else { "accepts-wrong-signature" };
+                rep.violation(
+                    if expected_ok {
+                        "get_function refused a function under the documented image of its signature after a request on another package of the process"
+                    } else {
+                        "get_function returned a callable handle under a Rust type that is not the image of the script signature, after the same type was granted for another package of the process"
+                    },
+                    &format!("process-history-dependent(one-earlier-request-in-the-process):{kind}:cross-package:{class}"),
+                    v,
+                );
+            }
+            Some(_) => {}
+        }
+    }
+}
+
 fn run_script(fam: &[Entry], rts: &[Runtime<NoCtx>], drv: &mut Driver, rep: &mut Report, pc: &mut Proc, index: u64) {
     let (seed, thorough) = (pc.seed, pc.thorough);
     let (script, mut pairs) = gen_script(fam, seed, index, thorough);
@@ -2857,6 +2941,9 @@ fn main() {
                         json!({"accepted": accepted, "library": "#[clone] type <name> = Val<Foo>;"}),
                     );
                 }
+            }
+            if from == 0 {
+                cross_package_reps(&fam, &mut rep, seed);
             }
             let mut pc = Proc { seed, thorough, log: vec![], class_dep: Default::default(), found: vec![], budget: 160, per_class: Default::default() };
             for i in from..from + n {
